@@ -72,12 +72,6 @@ def expected_pfor(drv, queries):
     return res
 
 
-def waited_ids(script):
-    """ids (per dispatcher) that a later wait on their queue covers -> must have run exactly once.
-    Returns None if the script contains parallelFor (ids then come from the O lines)."""
-    return None
-
-
 def run_script(exe, drv, script, timeout=90, env=None):
     """Run the harness on a script, evaluate oracle + tie. Returns Result."""
     r = Result()
